@@ -41,4 +41,38 @@ InitExpectation(lay) ==
    show_exit0 |-> TRUE, second_exit0 |-> FALSE]
 \* after a successful init the picked file is configured and stays the pick
 AfterInit(lay) == [lay EXCEPT ![PickConfigFile(lay)] = "section"]
+
+(***************************************************************************)
+(* What a configuration MEANS (property C18).  An abstract configuration A *)
+(* is a record                                                             *)
+(*   version, pattern              texts (here: opaque values)             *)
+(*   commit_message, tag_message, tag_scope, pre, post   a value or Absent *)
+(*   commit, tag, push             "absent" | "true" | "false"             *)
+(*   files                         sequence of <<path, <<patterns>>>>      *)
+(* Effective(A) is its one meaning, whatever syntax it is written in.      *)
+(***************************************************************************)
+Absent == "absent"
+Default(x, d) == IF x = Absent THEN d ELSE x
+Bool3(x) == x = "true"                    \* absent and false mean false
+DefaultCommitMessage == "bump version to {new_version}"
+DefaultTagMessage    == "{new_version}"
+Scopes == {"default", "global", "branch"}
+Invalid == [valid |-> FALSE]
+Effective(A) ==
+  LET c == Bool3(A.commit) t == Bool3(A.tag) p == Bool3(A.push) sc == Default(A.tag_scope, "default") IN
+  IF (t \/ p) /\ ~c THEN Invalid                       \* tag and push require commit
+  ELSE IF sc \notin Scopes THEN Invalid
+  ELSE [valid |-> TRUE, version |-> A.version, pattern |-> A.pattern,
+        commit_message |-> Default(A.commit_message, DefaultCommitMessage), tag_message |-> Default(A.tag_message, DefaultTagMessage),
+        tag_scope |-> sc, pre |-> Default(A.pre, ""), post |-> Default(A.post, ""),
+        commit |-> c, tag |-> t, push |-> p,
+        files |-> UNION {{<<A.files[q][1], A.files[q][2][r]>> : r \in 1..Len(A.files[q][2])} : q \in 1..Len(A.files)}]
+
+\* how each syntax spells a boolean, and what its reader makes of a spelling
+IniTrue  == {"yes", "true", "1", "on", "Yes", "TRUE", "On", "True"}
+IniFalse == {"no", "false", "0", "off", "No", "FALSE", "Off", "False"}
+ReadIniBool(sp) == sp \in IniTrue
+ReadTomlBool(sp) == sp = "true"
+Spellings(fmt, b) == IF fmt = "cfg" THEN (IF b THEN IniTrue ELSE IniFalse) ELSE {IF b THEN "true" ELSE "false"}
+ReadBool(fmt, sp) == IF fmt = "cfg" THEN ReadIniBool(sp) ELSE ReadTomlBool(sp)
 =============================================================================
